@@ -6,9 +6,12 @@ import OPM.Lemmas.RunRecords
 "Each run produces exactly one recent-run record and exactly one plot log, regardless of duplicated or resent
 run-started and run-stopped notifications and of engine disconnects during the run."
 
-Histories = arbitrary lists over {register, disconnect, RunStartedMsg r, RunStoppedMsg r} for one engine,
-starting from an empty database: every duplication, resend, reordering and disconnect pattern is such a list.
-`run true` is the code with fixes/C30-one-record-per-run.diff applied, `run false` the code before it.
+Histories = arbitrary lists over {register e, disconnect e, RunStartedMsg e r, RunStoppedMsg e r} for any number of
+engine ids `e` and any run ids `r` (also the same run id at two engines), starting from an empty database: every
+duplication, resend, reordering and disconnect pattern is such a list.  Rows are counted per run id
+(`runIds` = the run_id column), as the property observes them.
+`run true` is the code with the repair (fixes/C30-one-record-per-run.diff, committed in /repo), `run false` the
+code before it.
 -/
 namespace OPM.C30
 open OPM.RunRecords
@@ -16,7 +19,7 @@ open OPM.RunRecords
 /-- The full statement, for either version of the code. -/
 def C30_full (guarded : Bool) : Prop :=
   ∀ (ops : List Op) (r : Nat),
-    (run guarded init ops).plotLogs.count r ≤ 1 ∧ (run guarded init ops).recentRuns.count r ≤ 1
+    (runIds (run guarded init ops).plotLogs).count r ≤ 1 ∧ (runIds (run guarded init ops).recentRuns).count r ≤ 1
 
 /-- **Full statement (repaired code).** Whatever the message history, no run id ever has two plot logs or two
     recent-run records. -/
@@ -29,113 +32,214 @@ theorem at_most_one : C30_full true := by
 /-- Before the repair the statement is false: a duplicated RunStartedMsg gives the run a second plot log. -/
 theorem unrepaired_counterexample : ¬ C30_full false := by
   intro h
-  have := (h [.register, .start 1, .start 1] 1).1
+  have := (h [.register 0, .start 0 1, .start 0 1] 1).1
   revert this
   decide
 
 /-- Three minimal histories that break the unrepaired code: duplicate start; start resent after the stop (second
     plot log *and*, with the resent stop, a second recent run); start resent after a reconnect. -/
 theorem unrepaired_witnesses :
-    (run false init [.register, .start 1, .start 1]).plotLogs.count 1 = 2 ∧
-    (run false init [.register, .start 1, .stop 1, .start 1, .stop 1]).recentRuns.count 1 = 2 ∧
-    (run false init [.register, .start 1, .disconnect, .register, .start 1]).plotLogs.count 1 = 2 := by
+    (runIds (run false init [.register 0, .start 0 1, .start 0 1]).plotLogs).count 1 = 2 ∧
+    (runIds (run false init [.register 0, .start 0 1, .stop 0 1, .start 0 1, .stop 0 1]).recentRuns).count 1 = 2 ∧
+    (runIds (run false init [.register 0, .start 0 1, .disconnect 0, .register 0, .start 0 1]).plotLogs).count 1 = 2 := by
   decide
 
 /-- …and the repaired code handles exactly those histories. -/
 example :
-    (run true init [.register, .start 1, .start 1]).plotLogs = [1] ∧
-    (run true init [.register, .start 1, .stop 1, .start 1, .stop 1]).recentRuns = [1] ∧
-    (run true init [.register, .start 1, .disconnect, .register, .start 1]).plotLogs = [1] := by
+    (run true init [.register 0, .start 0 1, .start 0 1]).plotLogs = [(0, 1)] ∧
+    (run true init [.register 0, .start 0 1, .stop 0 1, .start 0 1, .stop 0 1]).recentRuns = [(0, 1)] ∧
+    (run true init [.register 0, .start 0 1, .disconnect 0, .register 0, .start 0 1]).plotLogs = [(0, 1)] := by
   decide
 
 /-- Exactly one plot log: once a RunStartedMsg for `r` has been handled for a registered engine, `r` has exactly
     one plot log after any continuation whatsoever. -/
-theorem started_run_has_exactly_one_plot_log (before after : List Op) (r : Nat)
-    (hreg : (run true init before).registered = true) :
-    (run true init (before ++ .start r :: after)).plotLogs.count r = 1 := by
-  have hgood := good_run init (before ++ .start r :: after) good_init
+theorem started_run_has_exactly_one_plot_log (before after : List Op) (e r : Nat)
+    (hreg : ((run true init before).eng e).registered = true) :
+    (runIds (run true init (before ++ .start e r :: after)).plotLogs).count r = 1 := by
+  have hgood := good_run init (before ++ .start e r :: after) good_init
   rw [hgood.plNodup.count]
-  have hmem : r ∈ (run true init (before ++ .start r :: after)).plotLogs := by
-    rw [run_append]
-    have : run true (run true init before) (.start r :: after)
-        = run true (step true (run true init before) (.start r)).1 after := rfl
-    rw [this]
-    apply (run_mono true _ after).1
-    rw [step_start_eq _ _ hreg]
-    simp [mem_addOnce]
+  have hmem : r ∈ runIds (run true init (before ++ .start e r :: after)).plotLogs := by
+    rw [run_append, run_cons]
+    apply runIds_mono _ _ (run_mono true _ after).1
+    rw [(step_start_eq _ _ _ hreg).2.1, mem_addOnce]
+    exact Or.inr rfl
   simp [hmem]
 
-example : (run true init [.register]).registered = true := by decide
+example : ((run true init [.register 3]).eng 3).registered = true := by decide
+
+theorem registered_of_run (ops : List Op) (e r : Nat) (hrun : ((run true init ops).eng e).run = some r) :
+    ((run true init ops).eng e).registered = true := by
+  have hb := good_run init ops good_init
+  cases h : ((run true init ops).eng e).registered with
+  | true => rfl
+  | false => rw [hb.unreg e h] at hrun; cases hrun
 
 /-- Exactly one recent run: once a RunStoppedMsg (with whatever run id) has been handled while `r` was the active
-    run, `r` has exactly one recent-run record and exactly one plot log after any continuation. -/
-theorem stopped_run_has_exactly_one_of_each (before after : List Op) (q r : Nat)
-    (hrun : (run true init before).run = some r) :
-    (run true init (before ++ .stop q :: after)).recentRuns.count r = 1 ∧
-    (run true init (before ++ .stop q :: after)).plotLogs.count r = 1 := by
-  have hgood := good_run init (before ++ .stop q :: after) good_init
-  have hb := good_run init before good_init
-  have hreg : (run true init before).registered = true := by
-    cases h : (run true init before).registered with
-    | true => rfl
-    | false => rw [hb.unreg h] at hrun; cases hrun
-  have hmem : r ∈ (run true init (before ++ .stop q :: after)).recentRuns := by
-    rw [run_append]
-    have : run true (run true init before) (.stop q :: after)
-        = run true (step true (run true init before) (.stop q)).1 after := rfl
-    rw [this]
-    apply (run_mono true _ after).2
-    rw [step_stop_eq _ _ hreg, hrun]
+    run of the engine, `r` has exactly one recent-run record and exactly one plot log after any continuation. -/
+theorem stopped_run_has_exactly_one_of_each (before after : List Op) (e q r : Nat)
+    (hrun : ((run true init before).eng e).run = some r) :
+    (runIds (run true init (before ++ .stop e q :: after)).recentRuns).count r = 1 ∧
+    (runIds (run true init (before ++ .stop e q :: after)).plotLogs).count r = 1 := by
+  have hgood := good_run init (before ++ .stop e q :: after) good_init
+  have hreg := registered_of_run before e r hrun
+  have hmem : r ∈ runIds (run true init (before ++ .stop e q :: after)).recentRuns := by
+    rw [run_append, run_cons]
+    apply runIds_mono _ _ (run_mono true _ after).2
+    rw [(step_stop_eq _ _ _ hreg).2.2, hrun]
     simp [mem_addOnce]
   rw [hgood.rrNodup.count, hgood.plNodup.count]
   simp [hmem, hgood.rrHasPl r hmem]
 
-example : (run true init [.register, .start 7, .disconnect, .register]).run = some 7 := by decide
+example : ((run true init [.register 0, .start 0 7, .disconnect 0, .register 0]).eng 0).run = some 7 := by decide
 
 /-- The same when the run is ended by the start of another run. -/
-theorem superseded_run_has_exactly_one_of_each (before after : List Op) (q r : Nat) (hne : r ≠ q)
-    (hrun : (run true init before).run = some r) :
-    (run true init (before ++ .start q :: after)).recentRuns.count r = 1 ∧
-    (run true init (before ++ .start q :: after)).plotLogs.count r = 1 := by
-  have hgood := good_run init (before ++ .start q :: after) good_init
-  have hb := good_run init before good_init
-  have hreg : (run true init before).registered = true := by
-    cases h : (run true init before).registered with
-    | true => rfl
-    | false => rw [hb.unreg h] at hrun; cases hrun
-  have hmem : r ∈ (run true init (before ++ .start q :: after)).recentRuns := by
-    rw [run_append]
-    have : run true (run true init before) (.start q :: after)
-        = run true (step true (run true init before) (.start q)).1 after := rfl
-    rw [this]
-    apply (run_mono true _ after).2
-    rw [step_start_eq _ _ hreg, hrun]
+theorem superseded_run_has_exactly_one_of_each (before after : List Op) (e q r : Nat) (hne : r ≠ q)
+    (hrun : ((run true init before).eng e).run = some r) :
+    (runIds (run true init (before ++ .start e q :: after)).recentRuns).count r = 1 ∧
+    (runIds (run true init (before ++ .start e q :: after)).plotLogs).count r = 1 := by
+  have hgood := good_run init (before ++ .start e q :: after) good_init
+  have hreg := registered_of_run before e r hrun
+  have hmem : r ∈ runIds (run true init (before ++ .start e q :: after)).recentRuns := by
+    rw [run_append, run_cons]
+    apply runIds_mono _ _ (run_mono true _ after).2
+    rw [(step_start_eq _ _ _ hreg).2.2, hrun]
     simp [mem_addOnce, hne]
   rw [hgood.rrNodup.count, hgood.plNodup.count]
   simp [hmem, hgood.rrHasPl r hmem]
 
 /-- Every recent run has exactly one plot log, and every plot log belongs to a run that is finished (has its
-    recent-run record), is the active run, or is parked in the RecentEngines row while the engine is disconnected. -/
+    recent-run record), or is open at some engine: its active run, or parked in the engine's RecentEngines row while
+    the engine is disconnected. -/
 theorem records_are_paired (ops : List Op) (r : Nat) :
     let s := run true init ops
-    (r ∈ s.recentRuns → s.plotLogs.count r = 1) ∧
-    (r ∈ s.plotLogs → r ∈ s.recentRuns ∨ s.run = some r ∨
-      (s.registered = false ∧ s.recentEngineRun = some (some r))) := by
+    (r ∈ runIds s.recentRuns → (runIds s.plotLogs).count r = 1) ∧
+    (r ∈ runIds s.plotLogs → r ∈ runIds s.recentRuns ∨ ∃ e, openAt (s.eng e) r) := by
   intro s
   have h := good_run init ops good_init
   refine ⟨fun hr => ?_, h.accounted r⟩
   rw [h.plNodup.count]; simp [h.rrHasPl r hr]
 
+/-- Messages of an engine that is not registered (disconnected) change nothing at all; a RunStartedMsg /
+    RunStoppedMsg is answered with an error. In particular a stop that arrives only then is dropped. -/
+theorem unregistered_messages_are_dropped (g : Bool) (s : State) (e r : Nat) (h : (s.eng e).registered = false) :
+    step g s (.start e r) = (s, .notRegistered) ∧ step g s (.stop e r) = (s, .notRegistered) ∧
+    step g s (.disconnect e) = (s, .ok) :=
+  step_unregistered g s e r h
+
+/-- What an engine's entry looks like is changed only by that engine's own messages. -/
+theorem other_engines_untouched (g : Bool) (s : State) (op : Op) (e : Nat)
+    (h : match op with
+      | .register x | .disconnect x | .start x _ | .stop x _ => x ≠ e) :
+    (step g s op).1.eng e = s.eng e := by
+  cases op with
+  | register x =>
+    have hx : e ≠ x := fun h' => h h'.symm
+    simp only [step]; split <;> simp [setEng, hx]
+  | disconnect x =>
+    have hx : e ≠ x := fun h' => h h'.symm
+    simp only [step]; split <;> simp [setEng, hx]
+  | start x r =>
+    have hx : e ≠ x := fun h' => h h'.symm
+    simp only [step, createPlotLog, storeRecentRun]
+    repeat' split
+    all_goals simp [setEng, hx]
+  | stop x r =>
+    have hx : e ≠ x := fun h' => h h'.symm
+    simp only [step, storeRecentRun]
+    repeat' split
+    all_goals simp [setEng, hx]
+
+/-- **Disconnect during the run.** The run is parked at the disconnect; whatever arrives while the engine is away
+    (its own messages are dropped, other engines go on), the re-registration gives the run back. -/
+theorem run_restored_after_disconnect (before mid : List Op) (e r : Nat)
+    (hrun : ((run true init before).eng e).run = some r) (hmid : ∀ op ∈ mid, op ≠ .register e) :
+    ((run true init (before ++ .disconnect e :: mid ++ [.register e])).eng e).run = some r ∧
+    ((run true init (before ++ .disconnect e :: mid ++ [.register e])).eng e).registered = true := by
+  have hreg := registered_of_run before e r hrun
+  have hpark : ∀ (mid : List Op) (s : State), (∀ op ∈ mid, op ≠ .register e) → (s.eng e).registered = false →
+      (run true s mid).eng e = s.eng e := by
+    intro mid
+    induction mid with
+    | nil => intro s _ _; rfl
+    | cons op ops ih =>
+      intro s hm hs
+      rw [run_cons]
+      have hstep : (step true s op).1.eng e = s.eng e := by
+        have hne := hm op (by simp)
+        cases op with
+        | register x =>
+          apply other_engines_untouched; intro hx; exact hne (by rw [hx])
+        | disconnect x =>
+          by_cases hx : x = e
+          · subst hx; rw [(step_unregistered true s x 0 hs).2.2]
+          · exact other_engines_untouched _ _ _ _ hx
+        | start x q =>
+          by_cases hx : x = e
+          · subst hx; rw [(step_unregistered true s x q hs).1]
+          · exact other_engines_untouched _ _ _ _ hx
+        | stop x q =>
+          by_cases hx : x = e
+          · subst hx; rw [(step_unregistered true s x q hs).2.1]
+          · exact other_engines_untouched _ _ _ _ hx
+      rw [ih _ (fun o ho => hm o (by simp [ho])) (by rw [hstep]; exact hs), hstep]
+  have hshape : run true init (before ++ .disconnect e :: mid ++ [.register e]) =
+      (step true (run true (step true (run true init before) (.disconnect e)).1 mid) (.register e)).1 := by
+    rw [List.append_assoc, run_append, List.cons_append, run_cons, run_append]
+    rfl
+  rw [hshape]
+  have hd := (step_disconnect_eq true (run true init before) e).1 e
+  simp only [hreg, and_self, if_true] at hd
+  have hm := hpark mid _ hmid (by rw [hd])
+  have hr := (step_register_eq true (run true (step true (run true init before) (.disconnect e)).1 mid) e).1 e
+  rw [hr, hm, hd]
+  simp [hrun, restoredRun]
+
+/-- …so a run that was open across a disconnect gets exactly one recent-run record and one plot log at the next
+    handled RunStoppedMsg (with whatever id), for ever after. -/
+theorem run_open_across_disconnect_is_recorded (before mid after : List Op) (e q r : Nat)
+    (hrun : ((run true init before).eng e).run = some r) (hmid : ∀ op ∈ mid, op ≠ .register e) :
+    (runIds (run true init ((before ++ .disconnect e :: mid ++ [.register e]) ++ .stop e q :: after)).recentRuns).count r = 1 ∧
+    (runIds (run true init ((before ++ .disconnect e :: mid ++ [.register e]) ++ .stop e q :: after)).plotLogs).count r = 1 :=
+  stopped_run_has_exactly_one_of_each _ after e q r (run_restored_after_disconnect before mid e r hrun hmid).1
+
+example : ∀ op ∈ [Op.stop 0 1, .start 0 2, .start 1 1, .disconnect 0], op ≠ Op.register 0 := by decide
+
 /-- A disconnect during the run followed by the re-registration gives the run back (and no new rows). -/
-theorem run_survives_reconnect (ops : List Op) (hreg : (run true init ops).registered = true) :
+theorem run_survives_reconnect (ops : List Op) (e : Nat) (hreg : ((run true init ops).eng e).registered = true) :
     let s := run true init ops
-    let s' := run true init (ops ++ [.disconnect, .register])
-    s'.run = s.run ∧ s'.registered = true ∧ s'.plotLogs = s.plotLogs ∧ s'.recentRuns = s.recentRuns := by
+    let s' := run true init (ops ++ [.disconnect e, .register e])
+    (s'.eng e).run = (s.eng e).run ∧ (s'.eng e).registered = true ∧ s'.plotLogs = s.plotLogs ∧
+    s'.recentRuns = s.recentRuns := by
   intro s s'
-  have : s' = (step true (step true s .disconnect).1 .register).1 := by
+  have hs' : s' = (step true (step true s (.disconnect e)).1 (.register e)).1 := by
     simp only [s', s, run_append]; rfl
-  rw [this, step_register_eq, step_disconnect_eq]
-  simp only [hreg, s, if_true]
-  cases (run true init ops).run <;> simp
+  have hd := step_disconnect_eq true s e
+  have hr := step_register_eq true (step true s (.disconnect e)).1 e
+  have hde := hd.1 e
+  simp only [show ((run true init ops).eng e).registered = true from hreg, s, and_self, if_true] at hde
+  rw [hs', hr.1 e, hr.2.1, hr.2.2, hd.2.1, hd.2.2, hde]
+  refine ⟨?_, ?_, rfl, rfl⟩
+  · simp only [and_self, if_true]
+    cases ((run true init ops).eng e).run <;> rfl
+  · simp
+
+/-! What does **not** hold, and is recorded rather than claimed:
+  * a RunStoppedMsg that arrives *only* while the engine is not registered is dropped (the engine gets an error
+    reply); the run stays open and is recorded at the next handled stop / superseding start after the
+    re-registration — if none ever arrives it has no recent-run record; -/
+example :
+    (run true init [.register 0, .start 0 1, .disconnect 0, .stop 0 1]).recentRuns = [] ∧
+    ((run true init [.register 0, .start 0 1, .disconnect 0, .stop 0 1, .register 0]).eng 0).run = some 1 ∧
+    (run true init [.register 0, .start 0 1, .disconnect 0, .stop 0 1, .register 0, .stop 0 1]).recentRuns = [(0, 1)] := by
+  decide
+
+/-!
+  * the tables are keyed by run id only: if two engines use the same run id (engine run ids are uuid4, so this needs
+    a collision or a misbehaving engine) the second engine's run is merged into the first one's rows — still
+    one row per run id, but none of its own. -/
+example :
+    (run true init [.register 0, .register 1, .start 0 5, .start 1 5, .stop 0 5, .stop 1 5]).plotLogs = [(0, 5)] ∧
+    (run true init [.register 0, .register 1, .start 0 5, .start 1 5, .stop 0 5, .stop 1 5]).recentRuns = [(0, 5)] := by
+  decide
 
 end OPM.C30
